@@ -345,6 +345,26 @@ later={
 'C16':"Since round 5: law `inlining-per-item` (variables looked up once per item), every eighth document has 150 people.",
 'C18':"Since round 5: stray bytes that are not valid UTF-8 in front of markup characters; documents from all-dead to all-living.",
 }
+later6={
+'C01':"Since round 6: 12 different documents are written and read back by 8 goroutines at once (every tenth random case).",
+'C02':"Since round 6: the normal form is demanded for values with line breaks too; 12 different streams decoded by 8 goroutines at once.",
+'C03':"Since round 6: the same bytes through `NewDocumentFromGEDCOMFile` and `NewDocumentFromString` (entry-point differential), inputs that begin like other file formats, memory allowance per worker.",
+'C04':"Since round 6: the real days around every near miss are parsed in the same process (before or after it); fresh sentences parsed by 8 goroutines at once.",
+'C06':"Since round 6: one operand read from text and the other built; fresh ranges compared by 8 goroutines at once.",
+'C07':"Since round 6: several `TYPE` lines under events; every record of a document with placeholder records copied (`source-document-modified-by-copy`).",
+'C08':"Since round 6: one in 16 independent pairs has roots of different kinds.",
+'C10':"Since round 6: ninth scenario `families-renumbered-only`; every reference line of the output must resolve; every second query-path case re-uses one compiled query; the listed finding is about references to individuals only.",
+'C11':"Since round 6: every seventh pair compares parts of the documents; results may hold individuals of the compared lists only.",
+'C12':"Since round 6: scores asked by 8 goroutines at once of individuals nobody has looked at.",
+'C13':"Since round 6: every filter function (and `FilterFlags.Filter`) applied to live nodes; `AddName` repeats existing names with lines of their own.",
+'C14':"Since round 6 a 31st fault class: long values without spaces.",
+'C15':"Since round 6: queries that declare variables named like the engine's `DocumentN`.",
+'C16':"Since round 6: law `length-of-a-non-list`.",
+'C18':"Since round 6: combining marks at the start of values; every tenth document has 28-40 people.",
+'C19':"Since round 6: nameless people with hostile pointers, several nameless people.",
+}
+for k,v in later6.items():
+    later[k]=(later.get(k,"")+" "+v).strip()
 for k,v in later.items():
     blocks[k]=blocks[k].rstrip("\n")+"\n"+v+"\n"
 ids=sorted(blocks)
